@@ -171,3 +171,36 @@ func ZZ_C01_Step() {
 func zzHubValueOf(st *zzState, e *types.SendToExternal) *big.Int {
 	return ZZHubValue(st.env.K, st.env.Ctx, st.chain, e)
 }
+
+// ZZ_C01_ExecutedKeepsExecutable: the contract keeps one last-executed nonce per token. After an observed execution
+// every other pending batch that the contract can still execute (another token, or a newer batch of the same token)
+// must stay pending on the hub; releasing its transfers to the pool lets them be refunded on the hub and paid out
+// externally as well.
+func ZZ_C01_ExecutedKeepsExecutable() {
+	st := zzBuildState(zzStateOpts{maxPool: 0, maxBatches: 3, maxPerBatch: 1, zeroFees: true, concreteIds: true})
+	k, ctx, chain := st.env.K, st.env.Ctx, st.chain
+	if len(st.batches) < 2 {
+		return
+	}
+	ex := st.batches[vrt.Choose("executed", len(st.batches))]
+	if vrt.Panics(func() {
+		k.batchTxExecuted(ctx, chain, ex.ExternalTokenId, ex.BatchNonce, "exthash", sdk.ZeroInt(), "payer")
+	}) {
+		return
+	}
+	vrt.Reach("c01.executable")
+	after := zzBatchesOf(k, ctx, chain)
+	for _, b := range st.batches {
+		if b == ex {
+			continue
+		}
+		stillExecutable := b.ExternalTokenId != ex.ExternalTokenId || b.BatchNonce > ex.BatchNonce
+		if stillExecutable {
+			vrt.Assert("c01.externally-executable-batch-stays-pending", zzHasBatch(after, b.ExternalTokenId, b.BatchNonce))
+			for _, t := range b.Transactions {
+				p, _ := zzCount(k, ctx, chain, t.Id)
+				vrt.Assert("c01.externally-payable-transfer-not-refundable", p == 0)
+			}
+		}
+	}
+}
